@@ -31,7 +31,7 @@ RULE = ('random model specs (harness components c + A x + B sin x, explicit and 
         'sub-group, total approx_totals} x method/form/step/step_calc/minimum_step grid x points with zero and large '
         'entries; distinct = (scenario, option cells, component kinds, solver stack); non-trivial = at least one '
         'approximated block with a nonlinear (B != 0) term was judged and all solvers reported convergence')
-MIN_JUDGED = {'quick': 150, 'thorough': 3000}
+MIN_JUDGED = {'quick': 200, 'thorough': 5000}
 REQUIRED_COUNTERS = (
     ['cell:partial:fd/%s/%s' % (f, sc) for f in ('forward', 'backward', 'central', 'default')
      for sc in ('abs', 'rel', 'rel_avg', 'rel_element', 'rel_legacy', 'default')] +
@@ -59,7 +59,7 @@ SCENARIOS = ['partials', 'partials', 'partials', 'colored', 'colored', 'semitota
 
 def shards(tier, seed):
     n = 16 if tier == 'quick' else 64
-    per = 40 if tier == 'quick' else 200
+    per = 26 if tier == 'quick' else 160
     return [{'seed': seed * 1000000 + i * 10000, 'n': per, 'tier': tier} for i in range(n)]
 
 
@@ -741,7 +741,13 @@ def _run_colored(case, acc):
     rec, rec2 = Recorder(), Recorder()
     methods = sorted(set(c['c12']['coloring']['method'] for c in comps))
 
+    cs_step_imp = any(c['kind'] == 'imp' and any(o['method'] == 'cs' and o.get('step')
+                                                for o in c['c12']['self'].values()) for c in comps)
+
     def K(what):
+        if cs_step_imp and 'raises:RuntimeError@direct.py' in what:
+            # the zero sparsity (fd sparsity sweep with the cs step) wipes the dr/dy block of the implicit component
+            return 'colored-cs-sparsity-by-fd-with-cs-step:colored:%s' % what
         return 'colored:%s:%s' % (what, '+'.join(methods))
     scen = 'colored'
     first = True
@@ -891,9 +897,17 @@ def _run_group(case, acc):
     if total:
         node, gpath = spec['tree'], ()
     else:
-        nodes = _group_nodes(spec['tree'])
+        cm_ = {c['name']: c for c in spec['comps']}
+        src_of = {cn['tgt']: cn['src'] for cn in spec['conns']}
+
+        def usable(nd_):
+            mem = _members(nd_)
+            outs = set(o['name'] for m_ in mem for o in cm_[m_]['outputs'])
+            real = [m_ for m_ in mem if cm_[m_]['kind'] != 'ivc']
+            return bool(real) and any(src_of[i['name']] not in outs for m_ in real for i in cm_[m_]['inputs'])
+        nodes = [t for t in _group_nodes(spec['tree']) if usable(t[1])]
         if not nodes:
-            raise HarnessSkip('no-subgroup')
+            raise HarnessSkip('no-usable-subgroup')
         nodes.sort(key=lambda t: -len(_members(t[1])))
         gpath, node = nodes[0] if rng.random() < 0.6 else rng.choice(nodes)
     members_all = _members(node)
